@@ -61,9 +61,12 @@ def interval_frames(tc, n: int, pattern: str, salt: int) -> List[bytes]:
 
 
 def execute(case) -> Dict[str, Any]:
-    tc, seq = case  # seq = list of (n, pattern, dt)
+    if case[0] == "late":
+        return execute_late(case)
+    tc, seq = case[:2]  # seq = list of (n, pattern, dt)
+    timing = case[2] if len(case) > 2 else True
     mmx.fresh_gc()
-    w = mmx.World(timecode=tc)
+    w = mmx.World(timecode=tc, send_msg_timing=timing)
     probs: List[Dict[str, Any]] = []
     reports = {"timing": 0, "traffic": 0}
     try:
@@ -86,6 +89,7 @@ def execute(case) -> Dict[str, Any]:
         acc_r: Counter = Counter()
         group: Dict[int, List[Dict[str, Any]]] = {}
         last_seq = None
+        since_report: set = set()  # counted types seen since the last MESSAGE_TRAFFIC frame
 
         def close_group(seqno):
             nonlocal acc_r
@@ -140,6 +144,7 @@ def execute(case) -> Dict[str, Any]:
                         close_group(last_seq)
                     last_seq = d["seqno"]
                     group.setdefault(d["seqno"], []).append(d)
+                    since_report.clear()
                 elif k[0] == "ack":
                     pass
                 else:
@@ -148,6 +153,7 @@ def execute(case) -> Dict[str, Any]:
                         last_seq = None
                     acc_t[f.msg_type] += 1
                     acc_r[f.msg_type] += 1
+                    since_report.add(f.msg_type)
 
         for i, (n, pattern, dt) in enumerate(seq):
             frames = interval_frames(tc, n, pattern, i)
@@ -165,12 +171,16 @@ def execute(case) -> Dict[str, Any]:
                 Pp.send(b"".join(frames))
                 w.settle(limit=10 ** 6)
             observe()
+            pending_types = len(since_report)
+            before_reports = reports["traffic"] + len(group)
             w.tick(dt)
             w.step()
             if not w.alive:
                 probs.append({"kind": "manager-" + (w.exit or ("?",))[0], "detail": str((w.exit or ("", ""))[1])[:300]})
                 break
             observe()
+            if dt > 1.0 and pending_types and reports["traffic"] + len(group) == before_reports:
+                probs.append({"kind": "traffic-report-missing", "interval_types": pending_types})
         if w.alive:
             # one final pair of reports closes the last traffic group
             w.tick(1.05)
@@ -181,6 +191,67 @@ def execute(case) -> Dict[str, Any]:
     finally:
         w.stop()
     return {"problems": probs, "reports": reports, "rounds": w.rounds}
+
+
+def execute_late(case) -> Dict[str, Any]:
+    """a MESSAGE_TRAFFIC listener that appears late (or pauses): the first report it sees covers one interval only.
+    Observer W is a logger subscribed to the few data types individually, so it sees every counted frame of those types."""
+    _tag, tc, variant = case
+    mmx.fresh_gc()
+    w = mmx.World(timecode=tc)
+    probs: List[Dict[str, Any]] = []
+    T = [BASE + 1, BASE + 2, BASE + 3]
+    try:
+        W = w.client("W", 1).connect()
+        Pp = w.client("P", 2).connect()
+        w.settle()
+        W.send(P.mkframe(P.MT_CONNECT_V2, P.p_connect_v2(1, 0, 0, 60, 1, b"late"), timecode=tc, src_mod_id=60))
+        Pp.send(P.mkframe(P.MT_CONNECT, P.p_connect(), timecode=tc, src_mod_id=21))
+        w.settle()
+        sub = lambda t, mt=P.MT_SUBSCRIBE: W.send(P.mkframe(mt, P.p_sub(t), timecode=tc, src_mod_id=60))
+        if variant == "pause":
+            sub(P.MT_MESSAGE_TRAFFIC)
+            w.settle()
+            sub(P.MT_MESSAGE_TRAFFIC, P.MT_PAUSE_SUBSCRIPTION)
+        w.settle()
+        pub = lambda mt, k: Pp.send(b"".join(P.mkframe(mt, b"", timecode=tc, src_mod_id=21) for _ in range(k)))
+        # interval 1 and 2: nobody listens to MESSAGE_TRAFFIC (or ALL)
+        pub(T[0], 7)
+        pub(T[1], 3)
+        w.settle()
+        w.tick(1.05)
+        w.step()
+        pub(T[1], 2)
+        w.settle()
+        w.tick(1.05)
+        w.step()
+        # the listener (re)appears
+        sub(P.MT_MESSAGE_TRAFFIC, P.MT_RESUME_SUBSCRIPTION if variant == "pause" else P.MT_SUBSCRIBE)
+        w.settle()
+        W.drain()
+        W.inbox.clear()
+        pub(T[2], 5)
+        w.settle()
+        w.tick(1.05)
+        w.step()
+        if not w.alive:
+            probs.append({"kind": "manager-" + (w.exit or ("?",))[0], "detail": str((w.exit or ("", ""))[1])[:200]})
+        W.drain()
+        reports = [P.decode_traffic(f.payload) for f in W.inbox if P.normalize(f)[0] == "traffic"]
+        listed = {}
+        for d in reports:
+            for t, c in zip(d["types"], d["counts"]):
+                if t == -1:
+                    break
+                if c:
+                    listed[t] = listed.get(t, 0) + c
+        want = {T[2]: 5}
+        got = {t: c for t, c in listed.items() if t in T}
+        if got != want or not reports:
+            probs.append({"kind": "traffic-late-listener", "variant": variant, "reported": got, "forwarded_in_interval": want, "reports": len(reports)})
+    finally:
+        w.stop()
+    return {"problems": probs, "reports": {"timing": 0, "traffic": 1}, "rounds": w.rounds}
 
 
 def run_chunk(cases):
@@ -199,6 +270,13 @@ def plan(tier: str):
                 if tier == "thorough" and k == 3 and dts[1] == 0.95 and dts[2] == 0.95:
                     continue
                 cases.append((tc, [(n, p, dt) for (n, p), dt in zip(combo, dts)]))
+    # TIMING_MESSAGE switched off (-T): the traffic reports must not depend on it
+    for combo in itertools.product([c for c in cs if c[0] in (0, 1, 2, 64, 65)], repeat=2):
+        cases.append((False, [(n, p, 1.05) for (n, p) in combo], False))
+    # a MESSAGE_TRAFFIC listener that subscribes late / pauses and resumes
+    for tc in (False, True):
+        for variant in ("late", "pause"):
+            cases.append(("late", tc, variant))
     # counts up to 65535 / 65536
     cases.append((False, [(2, "max", 1.05), (1, "ones", 1.05)]))
     if tier == "thorough":
@@ -227,8 +305,8 @@ def run(tier: str) -> int:
             nt += r["reports"]["timing"]
             nr += r["reports"]["traffic"]
             for p in r["problems"]:
-                chk.violation(f"C18:{p['kind']}", f"intervals {case[1]}: {p}", {"module": "vf.checks.c18", "case": [case[0], case[1]]},
-                              size=sum(x[0] for x in case[1]) + len(case[1]))
+                chk.violation(f"C18:{p['kind']}", f"intervals {case[1]}: {p}", {"module": "vf.checks.c18", "case": list(case)},
+                              size=(sum(x[0] for x in case[1]) + len(case[1])) if case[0] != "late" else 1)
     chk.sample({"timecode": cases[0][0], "intervals": cases[0][1]})
     chk.sample({"timecode": cases[-1][0], "intervals": cases[-1][1]})
     chk.assumptions += ["virtual TCP model and virtual clock", "observer is a logger (never skipped), so it sees every forwarded frame",
@@ -239,7 +317,7 @@ def run(tier: str) -> int:
 
 def replay(case) -> int:
     c = case["case"]
-    cc = (c[0], [tuple(x) for x in c[1]])
+    cc = tuple(c) if c[0] == "late" else (c[0], [tuple(x) for x in c[1]]) + tuple(c[2:])
     r1 = execute(cc)
     r2 = execute(cc)
     if str(r1["problems"]) != str(r2["problems"]):
